@@ -323,6 +323,11 @@ func init() {
 		return []smt.Term{fv.hwaddrStr(st, hw)}
 	}
 
+	// hex.EncodeToString: deterministic function of the bytes (see hexStr)
+	libModels["encoding/hex.EncodeToString"] = func(fv *funcVerifier, st *State, call *ast.CallExpr, fn *types.Func) []smt.Term {
+		return []smt.Term{fv.hexStr(st, fv.evalExpr(st, call.Args[0]))}
+	}
+
 	// locks
 	lock := func(acquire bool) libHandler {
 		return func(fv *funcVerifier, st *State, call *ast.CallExpr, fn *types.Func) []smt.Term {
@@ -399,23 +404,34 @@ func init() {
 // lockOp models acquiring/releasing the mutex designated by expression mu.
 // hwaddrStr is the model of net.HardwareAddr.String() for the slice value hw in state st.
 func (fv *funcVerifier) hwaddrStr(st *State, hw smt.Term) smt.Term {
+	return fv.bytesStr(st, "hwaddr_str", "hx", hw)
+}
+
+// hexStr is the model of encoding/hex.EncodeToString(b): like hwaddrStr a deterministic,
+// otherwise uninterpreted function of the byte window.
+func (fv *funcVerifier) hexStr(st *State, b smt.Term) smt.Term {
+	return fv.bytesStr(st, "hex_str", "hs", b)
+}
+
+// bytesStr applies the uninterpreted string-valued function fname to the byte window of slice b.
+func (fv *funcVerifier) bytesStr(st *State, fname, pfx string, hw smt.Term) smt.Term {
 	key := fv.memKey(types.Typ[types.Uint8])
 	fv.instFrames(key, slArr(hw))
-	if !fv.c.Has("hwaddr_str") {
-		fv.c.DeclareFun("hwaddr_str", []string{smt.Arr(smt.Int, smt.Int), smt.Int, smt.Int}, StrSort)
+	if !fv.c.Has(fname) {
+		fv.c.DeclareFun(fname, []string{smt.Arr(smt.Int, smt.Int), smt.Int, smt.Int}, StrSort)
 		// the string depends only on the bytes of the window (extensionality, stated contrapositively so
 		// that the index is a Skolem function): different strings => some byte of the windows differs
-		a, b := smt.Term{S: "hx_a", Sort: smt.Arr(smt.Int, smt.Int)}, smt.Term{S: "hx_b", Sort: smt.Arr(smt.Int, smt.Int)}
-		oa, ob, n := smt.Term{S: "hx_oa", Sort: smt.Int}, smt.Term{S: "hx_ob", Sort: smt.Int}, smt.Term{S: "hx_n", Sort: smt.Int}
-		i := smt.Term{S: "hx_i", Sort: smt.Int}
-		sa := smt.App(StrSort, "hwaddr_str", a, oa, n)
-		sb := smt.App(StrSort, "hwaddr_str", b, ob, n)
-		fv.c.Axiom("hwaddr_str_ext", smt.Term{S: "(forall ((hx_a (Array Int Int)) (hx_oa Int) (hx_b (Array Int Int)) (hx_ob Int) (hx_n Int)) (! " +
+		a, b := smt.Term{S: pfx + "_a", Sort: smt.Arr(smt.Int, smt.Int)}, smt.Term{S: pfx + "_b", Sort: smt.Arr(smt.Int, smt.Int)}
+		oa, ob, n := smt.Term{S: pfx + "_oa", Sort: smt.Int}, smt.Term{S: pfx + "_ob", Sort: smt.Int}, smt.Term{S: pfx + "_n", Sort: smt.Int}
+		i := smt.Term{S: pfx + "_i", Sort: smt.Int}
+		sa := smt.App(StrSort, fname, a, oa, n)
+		sb := smt.App(StrSort, fname, b, ob, n)
+		fv.c.Axiom(fname+"_ext", smt.Term{S: "(forall ((" + a.S + " (Array Int Int)) (" + oa.S + " Int) (" + b.S + " (Array Int Int)) (" + ob.S + " Int) (" + n.S + " Int)) (! " +
 			smt.Implies(smt.Ne(sa, sb), smt.Exists([]smt.Term{i}, smt.And(smt.Ge(i, smt.IntLit(0)), smt.Lt(i, n),
 				smt.Ne(smt.Select(a, smt.Add(oa, i)), smt.Select(b, smt.Add(ob, i)))))).S +
-			" :pattern (" + sa.S + " " + sb.S + ")))", Sort: smt.Bool}, "hwaddr_str")
+			" :pattern (" + sa.S + " " + sb.S + ")))", Sort: smt.Bool}, fname)
 	}
-	return smt.App(StrSort, "hwaddr_str", smt.Select(fv.heapGet(st, key), slArr(hw)), slOff(hw), slLen(hw))
+	return smt.App(StrSort, fname, smt.Select(fv.heapGet(st, key), slArr(hw)), slOff(hw), slLen(hw))
 }
 
 // ipKey is the identity of the net.IP.Equal equivalence class of the address held
